@@ -387,12 +387,12 @@ def call_entry(spy: Spy, cell, sample: Sample, fmt_str: str | None, *, path_as_s
                 make_link(target_path, real)
             elif target_path.is_symlink():
                 target_path.unlink()
-            if pf == "deducedLink":
-                pass
-            elif mode == "a-existing":
-                target_path.write_text("PRE\n")
-                before = "PRE\n"
-            elif target_path.exists():
+            if mode in ("a-existing", None):
+                # the default mode is append: the target already holds EARLIER RECORDS, which are the caller's
+                # (mode "fresh": no file yet; mode "w": old content to be replaced)
+                before = "EARLIER RECORD 1\nEARLIER RECORD 2\n"
+                target_path.write_text(before)       # (through the link, for a linked target)
+            elif pf != "deducedLink" and target_path.exists():
                 target_path.unlink()
             args = (obj, str(target_path) if path_as_str else target_path, fmt_arg)
             if mode in ("w", "a"):
@@ -484,6 +484,10 @@ def classify(cell, obs) -> dict:
             if isinstance(obs["ret"], str) and obs["ret"]:
                 wrote = "returned"
     stream_ok = all(fh.closed for fh in obs["opened"])
+    if obs["target_path"] is not None and obs["before"]:
+        # whatever happened (also after an exception): the earlier records of the target file are still there
+        w = obs["written"]
+        stream_ok = stream_ok and w is not None and w.startswith(obs["before"])
     if obs["caller_stream"] is not None:
         # still open, and nothing was done to it but writing (the class-level dump only writes)
         stream_ok = stream_ok and not obs["caller_stream"].closed and not getattr(obs["caller_stream"], "other_calls", [])
